@@ -266,7 +266,6 @@ fn run_flavour<F: Flv>(ctx: &Ctx, sh: &Shared, cov: &mut Map<String, Value>) -> 
     // ---- (a) trees + (c) mutations of their encodings
     let alphabet: &[u8] = if ctx.quick() { &MUT_ALPHABET_QUICK } else { &gen::ALL_BYTES };
     let bases = AtomicU64::new(0);
-    let s12 = space.s1.len() + space.s2.len();
     par_range(ctx, n, 64, |i, l| {
         let r = space.get(i as usize);
         let enc = check_tree::<F>(r, l, sh, false);
@@ -274,8 +273,6 @@ fn run_flavour<F: Flv>(ctx: &Ctx, sh: &Shared, cov: &mut Map<String, Value>) -> 
             bases.fetch_add(1, Ordering::Relaxed);
             let mut muts = 0u64;
             let mut acc = 0u64;
-            // depth-3 trees are always mutated with the 12 structural values (their leaves are already covered through S1/S2)
-            let alphabet: &[u8] = if (i as usize) < s12 { alphabet } else { &MUT_ALPHABET_QUICK };
             gen::mutations(&enc, alphabet, |m| {
                 muts += 1;
                 if check_payload::<F>(m, "c", l, sh, false) {
@@ -415,7 +412,7 @@ pub fn run(ctx: Ctx) -> ! {
         "x3 flavours. (a) every value tree of the tree space (see coverage.tree_space); (b) every byte string of length <= 3 over the 16-symbol alphabet \
          {{5B 5C 4D 00 01 02 07 0C 20 21 22 23 80 C0 FF 83}} and the flavour prefix followed by every string of length <= {} over \
          {{00 01 02 03 07 0C 20 21 22 23 41 80 83 87 C0 FF}}; (c) every single-point mutation (substitute each position with each of {} values, delete, duplicate, \
-         truncate at each length, append each value) of every (a)-encoding of <= 40 bytes (S3 encodings: the 12 structural values in both tiers); (e) every 2-byte size form on a string header, every first byte of a static manifest address. \
+         truncate at each length, append each value) of every (a)-encoding of <= 40 bytes; (e) every 2-byte size form on a string header, every first byte of a static manifest address. \
          A case is one tree or one payload. non-trivial = distinct value trees (by encoding) + distinct (b) strings accepted by decoder and reference",
         if quick { 6 } else { 7 },
         if quick { "the 12 structurally significant" } else { "all 256" }
